@@ -772,7 +772,7 @@ def csm2Oracle (k1 : Nat) (fa1 fb1 : Float) (k2 : Nat) (fa2 fb2 : Float) (pos12 
   let onCorner : Bool :=
     if k1 != 0 && k2 = 0 then (let l := M.invAct ⟨0, 0⟩; rabs l.x == a2 && rabs l.y == b2)
     else if k1 = 0 && k2 != 0 then (rabs M.t.x == a1 && rabs M.t.y == b1) else false
-  let tag := s!"pair={if k1 = 0 then "cuboid" else "ball"}/{if k2 = 0 then "cuboid" else "ball"}{if k1 != 0 && k2 != 0 && vmag2 M.t == 0 then "[concentric]" else ""}{if onCorner then "[round-cores-touching]" else ""}"
+  let tag := s!"pair={if k1 = 0 then "cuboid" else "ball"}/{if k2 = 0 then "cuboid" else "ball"}{if k1 != 0 && k2 != 0 && vmag2 M.t == 0 then "[concentric]" else if onCorner then "[round-cores-touching]" else if k1 != 0 || k2 != 0 then "[round]" else ""}"
   match o with
   | "panic" :: _ => s!"fail panic {tag}"
   | _ =>
@@ -808,7 +808,7 @@ def csm3Oracle (k1 : Nat) (fh1 : V3 Float) (k2 : Nat) (fh2 : V3 Float) (pos12 : 
   let onEdge : Bool :=
     if k1 != 0 && k2 = 0 then onB (M.invAct ⟨0, 0, 0⟩) h2
     else if k1 = 0 && k2 != 0 then onB M.t h1 else false
-  let tag := s!"pair={if k1 = 0 then "cuboid" else "ball"}/{if k2 = 0 then "cuboid" else "ball"}{if k1 != 0 && k2 != 0 && vmag M.t == 0 then "[concentric]" else ""}{if onEdge then "[round-cores-touching]" else ""}"
+  let tag := s!"pair={if k1 = 0 then "cuboid" else "ball"}/{if k2 = 0 then "cuboid" else "ball"}{if k1 != 0 && k2 != 0 && vmag M.t == 0 then "[concentric]" else if onEdge then "[round-cores-touching]" else if k1 != 0 || k2 != 0 then "[round]" else ""}"
   let tag := tag ++ (if k1 = 0 && k2 = 0 && symmetricParallelBoxes (sh k1 fh1) (sh k2 fh2) I M then "[symmetric-parallel-boxes]" else "")
   match o with
   | "panic" :: _ => s!"fail panic {tag}"
